@@ -256,7 +256,7 @@ func checkW1(site *writeSite, allSites map[ssa.Instruction]bool) (bool, string) 
 		if len(r.Results) == 0 {
 			return nil
 		}
-		last := r.Results[len(r.Results)-1]
+		last := results(r)[len(r.Results)-1]
 		if !isErrorType(last.Type()) {
 			return nil
 		}
